@@ -31,7 +31,15 @@ func (r *EntityRemote) Device() api.DeviceRemoteInterface {
 }
 
 func (r *EntityRemote) UpdateDeviceAddress(address model.AddressDeviceType) {
-	r.address.Device = &address
+	r.muxDescription.Lock()
+	defer r.muxDescription.Unlock()
+
+	// replace the address instead of modifying the one that Address()
+	// has already handed out to other goroutines
+	r.address = &model.EntityAddressType{
+		Device: &address,
+		Entity: r.address.Entity,
+	}
 }
 
 func (r *EntityRemote) AddFeature(f api.FeatureRemoteInterface) {
